@@ -335,6 +335,8 @@ pub struct Tip {
     pub height: u32,
     pub da: u64,
     pub root: Bytes32,
+    /// latest consensus parameters version in the state (what the block producer puts into the next header)
+    pub cp_version: u32,
 }
 
 pub fn tip(db: &ChainDb) -> Tip {
@@ -342,14 +344,18 @@ pub fn tip(db: &ChainDb) -> Tip {
     let view = StructuredStorage::new(db.cur());
     let block = view.storage::<FuelBlocks>().get(&height).expect("read block").expect("tip block exists").into_owned();
     let root: Bytes32 = view.storage::<FuelBlocks>().root(&height).expect("block merkle root").into();
-    Tip { height: *height, da: block.header().da_height().0, root }
+    let cp_version = {
+        use fuel_core_producer::ports::BlockProducerDatabase;
+        db.cur().latest_consensus_parameters_version().expect("consensus parameters version")
+    };
+    Tip { height: *height, da: block.header().da_height().0, root, cp_version }
 }
 
 pub fn next_header(t: &Tip, da_advance: u64) -> PartialBlockHeader {
     PartialBlockHeader {
         application: ApplicationHeader {
             da_height: DaBlockHeight(t.da + da_advance),
-            consensus_parameters_version: 0,
+            consensus_parameters_version: t.cp_version,
             state_transition_bytecode_version: STF_VERSION,
             generated: Default::default(),
         },
